@@ -392,7 +392,7 @@ def run(ctx, spec):
                     cand = [u for u in range(max(0, v - 40), v) if nch[u] < 2] or [u for u in range(v) if nch[u] < 2]
                     p = rng.choice(cand)
                 elif kind == "deepish":
-                    p = rng.randrange(max(0, v - 6), v)
+                    p = rng.randrange(max(0, v - 40), v)  # depth about n/20: recursion in the harness (shape, model) stays shallow
                 else:
                     p = rng.randrange(v)
                 parents.append(p)
